@@ -1,7 +1,10 @@
 """C14 — the reported Hessian is the second derivative of cost (atomic devices and preference functions).
 
 T2: `leaf.hess` (closed-form classes; the model answers "numeric" for storage / thermal, which `agree` skips,
-so only the (n, n) size is tied there).  Oracle (implementation only): central second differences of `cost`
+so only the (n, n) size is tied there) and, for storage / thermal, `hess2.leaf`: the implementation's numerically
+differentiated Hessian against the model's ANALYTIC second derivative (`sdevHess` / `tdevHess`, proved to be the
+Jacobian of the marginal cost in DK.Props.C14b) at 1e-4 relative, n <= 4, away from kinks; thermal: diagonal only.
+Oracle (implementation only): central second differences of `cost`
 and first differences of `deriv` (two step sizes each; entries where they disagree are skipped) against
 `hess`, plus shape (n, n), symmetry, independence of price and positive semidefiniteness for the convex
 models.  Storage / thermal Hessians are numdifftools output: compared at 1e-4, n <= 4, away from kinks;
@@ -95,6 +98,9 @@ class C14(Prop):
               'DK.C14.gdevice_hess', 'DK.C14.gdevice_hess_symm', 'DK.C14.cdevice2_hess', 'DK.C14.cdevice2_hess_symm', 'DK.C14.cdevice2_hess_psd',
               'DK.C14.PSD.zero', 'DK.C14.PSD.add', 'DK.C14.PSD.diag', 'DK.C14.symm_diag', 'DK.C14.isHessAt_diag',
               'DK.C14.psd_range_term', 'DK.C14.psd_range_sum'],
+              'DK.Props.C14b': ['DK.C14b.sdevice_hess', 'DK.C14b.sdevice_hess_symm', 'DK.C14b.sdevice_hess_psd',
+              'DK.C14b.tdevice_hess', 'DK.C14b.tdevice_hess_symm', 'DK.C14b.tdevice_hess_psd',
+              'DK.C14b.tSlotHess_eq', 'DK.C14b.tdevHessDiag_eq', 'DK.C14b.tdevHess_const'],
               'DK.Props.C01c': ['DK.C01c.fn_hess', 'DK.C01c.fn_hess_symm'],
               'DK.Props.C01all': ['DK.C01all.leaf_hess']}
   rule = ('random leaf of every shipped class (ADevice x every combinator of functions.py, half of them restricted to the convex family; '
@@ -104,6 +110,7 @@ class C14(Prop):
   sizes = {'quick': 1000, 'thorough': 20000}
   assumptions = ['oracle: second differences of cost (h = 1e-3, 2e-3; 2e-4 relative) and first differences of deriv (h = 1e-5, 8e-5; 2e-5 relative)',
                  'storage / thermal Hessians are numdifftools output: compared at 1e-4 relative, n <= 4, more than 1/8 flow unit away from kinks (measured: numdifftools is off by up to 30 % within 0.07); thermal diagonal only',
+                 'T2 hess2.leaf (storage / thermal): numdifftools Hessian vs the analytic second derivative of the model (DK.C14b.sdevice_hess / tdevice_hess) under the same restrictions (1e-4 relative per entry, n <= 4, kink margin 1/8); thermal: only the diagonal is compared (the implementation zeroes the off-diagonals by construction, the analytic ones are not zero)',
                  'DK.C01c.fn_hess / fn_hess_symm (combinator trees) are proved in DK.Props.C01c, whose helper names clash with this module\'s: audited by C01']
 
   def __init__(self):
@@ -152,7 +159,19 @@ class C14(Prop):
       return []
     dev = build.build_leaf(d)
     s = flow_arr(case); p = build.price(case['p'])
-    return [Op({'op': 'leaf.hess', 'dev': d, 's': case['s']}, lambda: dev.hess(s, p), 1e-9, 'hess')]
+    out = [Op({'op': 'leaf.hess', 'dev': d, 's': case['s']}, lambda: dev.hess(s, p), 1e-9, 'hess')]
+    if d['cls'] in NUMERIC and d['n'] <= 4:
+      # numerically differentiated in the source: tie it to the model's analytic second derivative (DK.Props.C14b)
+      if not away_from_kinks(case):
+        self.bump('hess2: near a kink (numeric vs analytic not compared)')
+        return out
+      self.bump('hess2: numeric vs analytic compared')
+      if d['cls'] == 'TDevice':   # documented diagonal approximation: only the diagonal is claimed
+        out.append(Op({'op': 'hess2.leaf', 'dev': d, 's': case['s'], 'diag': True},
+                      lambda: np().diag(np().array(dev.hess(s, p), dtype=float)), 1e-4, 'hess2 (numeric Hessian diagonal vs analytic)'))
+      else:
+        out.append(Op({'op': 'hess2.leaf', 'dev': d, 's': case['s']}, lambda: dev.hess(s, p), 1e-4, 'hess2 (numeric Hessian vs analytic)'))
+    return out
 
   # ---------------------------------------------------------------- oracle
   def oracle(self, case):
